@@ -1,7 +1,12 @@
 """C06 -- the N-Triples reader yields exactly the triples of the document.
 
-Theorem: Props/C06.v (C06_partial on C06_dom, C06_terminates, C06_document_partial,
-one C06_F*_refuted per root cause).
+Theorem: Props/C06.v (C06 / C06_document / C06_terminates = the full property once every repair
+is in VERIF_REPO; until then C06_partial on C06_dom_cur, C06_document_partial,
+C06_terminates_partial, one C06_F*_refuted per root cause).
+Flags (Gen.Consts, regenerated from VERIF_REPO, asked from the model through c06_info):
+nt_fixed_tok, nt_fixed_dlt, nt_tok_end_at_hash, nt_uri_unclosed_to_eol.  With nt_tok_end_at_hash
+no root cause is excused any more: every valid line of the stream must be read right.  With
+nt_uri_unclosed_to_eol no real call may run into the alarm, whatever the line holds.
 Correspondence: bounded-exhaustive, Model.NtReader vs shexer's NtTriplesYielder on
 every line rendered from (lexical form over the adversarial alphabet) x suffix
 forms x separator layouts x blank/no blank before the dot x comment variants x
@@ -396,14 +401,18 @@ class Batch(object):
         self.vm = []                        # a few (entry, in, out) triples for the vm_compute cross-check
         self.hashes = set()                 # hashes of the non-trivial lines of parts not distinct by construction
         self.hang_lines = []                # (line, model observation) of every real call that ran into the alarm
+        self.n_hang = 0                     # real calls that ran into the alarm
+        self.hang_viol = []                 # the same, when the reader is proved to terminate on every line (FLAGS["eol"])
 
     def merge(self, o):
         self.n += o.n
+        self.n_hang += o.n_hang
         self.nontrivial += o.nontrivial
         self.in_dom += o.in_dom
         self.valid += o.valid
         self.status.update(o.status)
-        for a in ("spec_fail_in_dom", "spec_fail_no_rc", "corr_fail", "render_fail", "rdflib_fail", "hang_lines"):
+        for a in ("spec_fail_in_dom", "spec_fail_no_rc", "corr_fail", "render_fail", "rdflib_fail", "hang_lines",
+                  "hang_viol"):
             getattr(self, a).extend(getattr(o, a)[:20])
         self.rc_hits.update(o.rc_hits)
         self.rc_fail.update(o.rc_fail)
@@ -424,6 +433,10 @@ RC_IDS_UNREPAIRED = ["C06-F1", "C06-F2", "C06-F3", "C06-F4", "C06-F5", "C06-F6",
 # after the tokeniser repairs (Gen.Consts.nt_fixed_tok) what is left of F7 has its own id
 RC_IDS_REPAIRED = ["C06-F1", "C06-F2", "C06-F3", "C06-F4", "C06-F5", "C06-F6", "C06-F7r", "C06-F8"]
 RC_IDS = list(RC_IDS_UNREPAIRED)
+# the two switches of notes/proposed_fixes/C06-comment-glued-to-dot.diff, as Consts.v was generated:
+# hash = a token also ends at '#' (nothing is left of C06-F7r: C06_dom_cur is everything, Props/C06.v: C06);
+# eol  = a '<' without '>' reaches the end of the line (no text makes the reader hang: C06_terminates)
+FLAGS = {"hash": False, "eol": False}
 
 
 def set_shape():
@@ -431,7 +444,11 @@ def set_shape():
     info = _mb().call("c06_info", [["x"]])[0]
     fixed = info[0] == "1"
     RC_IDS[:] = RC_IDS_REPAIRED if fixed else RC_IDS_UNREPAIRED
-    return "tokeniser+typing" if (fixed and len(info) > 1 and info[1] == "1") else ("tokeniser" if fixed else "")
+    FLAGS["hash"] = len(info) > 2 and info[2] == "1"
+    FLAGS["eol"] = len(info) > 3 and info[3] == "1"
+    parts = (["tokeniser"] if fixed else []) + (["typing"] if (fixed and len(info) > 1 and info[1] == "1") else []) + \
+        (["token-ends-at-hash"] if FLAGS["hash"] else []) + (["unclosed-corner-to-eol"] if FLAGS["eol"] else [])
+    return "+".join(parts)
 
 
 def load_corpus():
@@ -473,6 +490,9 @@ def eval_cases(cases, rdflib_every=0, vm_every=0, known=None, by_hash=False):
             _UNPREDICTED_HANGS[0] += 1
         if iobs[0] == "H":
             b.hang_lines.append((line, list(mobs)))
+            b.n_hang += 1
+            if FLAGS["eol"]:
+                b.hang_viol.append((c.tup(), line, list(iobs), list(mobs)))
         b.n += 1
         b.status[iobs[0]] += 1
         if len(so) < 4 or so[0] != line:
@@ -572,7 +592,7 @@ def pool_run(fn, args):
 def doc_checks(rnd, n_docs, known):
     """random multi-line documents through raw_graph and source_file; model c06_doc vs implementation; oracle on
     documents made only of in-domain lines"""
-    res = {"docs": 0, "corr_fail": [], "spec_fail": [], "all_in_dom_docs": 0}
+    res = {"docs": 0, "corr_fail": [], "spec_fail": [], "all_in_dom_docs": 0, "hang": []}
     mb = _mb()
     d = os.path.join(core.WORK, "c06")
     os.makedirs(d, exist_ok=True)
@@ -600,6 +620,8 @@ def doc_checks(rnd, n_docs, known):
                 iobs = impl_doc(doc)
             mobs = parse_doc_row(mb.call("c06_doc", [["0", reader, doc]])[0])
             res["docs"] += 1
+            if iobs[0] == "H" and FLAGS["eol"]:
+                res["hang"].append((reader, doc, iobs, mobs))
             if list(iobs) != list(mobs):
                 res["corr_fail"].append((reader, doc, iobs, mobs))
             if cs and all(r[1] == "1" and r[2] == "1" for r in so) and not (reader == "file" and blank):
@@ -608,6 +630,47 @@ def doc_checks(rnd, n_docs, known):
                 got = [kinded_of_obs(t) for t in iobs[2]]
                 if not (iobs[0] == "D" and iobs[1] == 0 and got == want):
                     res["spec_fail"].append((reader, doc, iobs, want))
+    return res
+
+
+# ---- arbitrary text: lines that are NOT N-Triples (C06_terminates speaks of every line; the correspondence too)
+GARBAGE_TOK = ["<", ">", '"', "_", "_:", ".", "#", "1", "23", "@", "^^", "\\", " ", " ", "\t", "é", "a", "b", ":", "-", "^^<",
+               '"@en', "<http://e/x>", "_:b", '"a"', '\\"', "\\\\", "xsd:", "[]", "'", "^"]
+
+
+def garbage_lines(rnd, n):
+    out = []
+    for _ in range(n):
+        ln = "".join(rnd.choice(GARBAGE_TOK) for _ in range(rnd.randint(1, 10)))
+        if ln.strip() != "":
+            out.append(ln)
+    return out
+
+
+def _work_garbage(lines):
+    """model vs implementation on arbitrary lines.  Where the model predicts a hang (only without
+    nt_uri_unclosed_to_eol) the real reader is called on the first 40 such lines of the batch only (0.1 s each)."""
+    warnings.filterwarnings("ignore")
+    mb = _mb()
+    set_shape()
+    out = mb.call("c06_doc", [["0", "raw", ln] for ln in lines])
+    res = {"n": 0, "status": collections.Counter(), "corr_fail": [], "hang": [], "predicted_hangs": 0, "not_run": 0}
+    for ln, r in zip(lines, out):
+        mobs = parse_doc_row(r)
+        if mobs[0] == "H":
+            res["predicted_hangs"] += 1
+            if res["predicted_hangs"] > 40:
+                res["not_run"] += 1
+                continue
+        iobs = impl_doc(ln, timeout=0.1 if mobs[0] == "H" else (2.0 if _UNPREDICTED_HANGS[0] < 3 else 0.2))
+        if iobs[0] == "H" and mobs[0] != "H":
+            _UNPREDICTED_HANGS[0] += 1
+        res["n"] += 1
+        res["status"][iobs[0]] += 1
+        if iobs[0] == "H" and FLAGS["eol"] and len(res["hang"]) < 5:
+            res["hang"].append((ln, list(iobs), list(mobs)))
+        if list(iobs) != list(mobs) and len(res["corr_fail"]) < 5:
+            res["corr_fail"].append((None, ln, iobs, mobs))
     return res
 
 
@@ -621,28 +684,53 @@ def run(tier, seed, replay=None):
     findings = {f["id"]: f for f in core.load_findings("C06")}
     known = set(fid for fid, f in findings.items() if f.get("status") == "known")
 
+    def read_right(line, want):
+        got = impl_doc(line)
+        return got, (got[0] == "D" and got[1] == 0 and [kinded_of_obs(t) for t in got[2]] == [want])
+
     # known findings: replay the pinned reproducers against the real code
+    kf_parts = {}
     for fid in sorted(known):
         f = findings[fid]
         rp = f["reproducer"]
-        got = impl_doc(rp["line"])
-        want = rp["expected_kinded"]
-        ok = got[0] == "D" and got[1] == 0 and [kinded_of_obs(t) for t in got[2]] == [want]
+        got, ok = read_right(rp["line"], rp["expected_kinded"])
         if not ok:
-            run.known_finding(fid, "%s -> reader answers %s" % (f["what"][:160], json.dumps(got)[:160]))
+            kf_parts[fid] = ["%s -> reader answers %s" % (f["what"][:160], json.dumps(got)[:160])]
         else:
             run.notes.append("finding %s no longer reproduces on its pinned line" % fid)
+        rh = f.get("reproducer_hang")
+        if rh:
+            got, ok = read_right(rh["line"], rh["expected_kinded"])
+            if got[0] == "H":
+                kf_parts.setdefault(fid, []).append("same root cause as a HANG: yield_triples never returns on the pinned "
+                                                    "valid line %s (alarm after 2 s)"
+                                                    % json.dumps(rh["line"], ensure_ascii=False))
+            elif not ok:
+                kf_parts.setdefault(fid, []).append("the pinned hang line now answers %s" % json.dumps(got)[:160])
+            else:
+                run.notes.append("finding %s no longer reproduces on its pinned hang line" % fid)
 
-    # regression corpus: pinned lines of repaired findings must be read right
-    corpus = load_corpus()
+    # regression corpus: pinned lines of repaired findings must be read right (cases marked replay_first come
+    # first: the hang line of C06-F7r stops a relapse before the enumeration meets it thousands of times).
+    # A case whose finding is still listed as known belongs to that finding until the repair is in VERIF_REPO.
+    corpus = sorted(load_corpus(), key=lambda c: (not c.get("replay_first"), c["file"]))
     corpus_fail = []
+    waiting = {}
     for c in corpus:
-        got = impl_doc(c["line"])
-        ok = got[0] == "D" and got[1] == 0 and [kinded_of_obs(t) for t in got[2]] == [c["expected_kinded"]]
-        if not ok:
-            corpus_fail.append(c)
-            run.violation("regression case of repaired finding %s is not read right" % c.get("finding"),
-                          {"line": c["line"], "impl": got, "expected_kinded": c["expected_kinded"], "corpus": c["file"]})
+        got, ok = read_right(c["line"], c["expected_kinded"])
+        if ok:
+            continue
+        if c.get("finding") in known:
+            waiting.setdefault(c["finding"], []).append(c["file"])
+            continue
+        corpus_fail.append(c)
+        run.violation("regression case of repaired finding %s is not read right%s"
+                      % (c.get("finding"), " (the reader never returns)" if got[0] == "H" else ""),
+                      {"line": c["line"], "impl": got, "expected_kinded": c["expected_kinded"], "corpus": c["file"]})
+    for fid, files in waiting.items():
+        kf_parts.setdefault(fid, []).append("regression case(s) %s wait for the repair" % ", ".join(files))
+    for fid in sorted(kf_parts):
+        run.known_finding(fid, "; ".join(kf_parts[fid]))
 
     if not bs.model_ok:
         run.notes.append("model binary unavailable: " + bs.model_log[-800:])
@@ -652,9 +740,15 @@ def run(tier, seed, replay=None):
 
     total = Batch()
     repaired = set_shape()
-    run.notes.append("repairs present in VERIF_REPO: %s (Gen.Consts.nt_fixed_tok / nt_fixed_dlt)" % (repaired or "none"))
+    run.notes.append("repairs present in VERIF_REPO: %s (Gen.Consts.nt_fixed_tok / nt_fixed_dlt / nt_tok_end_at_hash / "
+                     "nt_uri_unclosed_to_eol)" % (repaired or "none"))
+    if FLAGS["hash"]:
+        run.notes.append("nt_tok_end_at_hash: C06_dom_cur is everything, no root cause is excused (Props/C06.v: C06)")
+    if FLAGS["eol"]:
+        run.notes.append("nt_uri_unclosed_to_eol: no real call may run into the alarm (Props/C06.v: C06_terminates)")
     t_start = time.time()
     docs = None
+    garbage = None
     if replay:
         with open(replay) as f:
             rp = json.load(f)
@@ -665,6 +759,8 @@ def run(tier, seed, replay=None):
             mobs = parse_doc_row(_mb().call("c06_doc", [["0", "raw", rp["line"]]])[0])
             iobs = impl_doc(rp["line"])
             total.n = 1
+            if iobs[0] == "H" and FLAGS["eol"]:
+                total.hang_viol.append((None, rp["line"], list(iobs), list(mobs)))
             if list(iobs) != list(mobs):
                 total.corr_fail.append((None, rp["line"], iobs, mobs))
         exhaustive = False
@@ -686,6 +782,16 @@ def run(tier, seed, replay=None):
         for r in pool_run(_work_cases, [(ch, 3, 211, known) for ch in chunks(node_cases + rcases, 1500)]):
             total.merge(r)
         docs = doc_checks(rnd, 1500 if tier == "thorough" else 300, known)
+        glines = garbage_lines(rnd, 200000 if tier == "thorough" else 20000)
+        garbage = {"n": 0, "status": collections.Counter(), "corr_fail": [], "hang": [], "predicted_hangs": 0, "not_run": 0}
+        for r in pool_run(_work_garbage, chunks(glines, 2000)):
+            for k in ("n", "predicted_hangs", "not_run"):
+                garbage[k] += r[k]
+            garbage["status"].update(r["status"])
+            garbage["corr_fail"].extend(r["corr_fail"])
+            garbage["hang"].extend(r["hang"])
+        total.corr_fail.extend(garbage["corr_fail"])
+        total.hang_viol.extend((None, ln, i, m) for (ln, i, m) in garbage["hang"])
         exhaustive = True
     wall_enum = time.time() - t_start
 
@@ -715,8 +821,19 @@ def run(tier, seed, replay=None):
         for (reader, doc, iobs, want) in docs["spec_fail"][:3]:
             run.violation("document of in-domain statements not read exactly", {"reader": reader, "document": doc,
                                                                                   "impl": iobs, "expected_kinded": want})
+    # hangs: with nt_uri_unclosed_to_eol the reader terminates on every text (C06_terminates), valid or not
+    hangs = [(ct, line, iobs, mobs) for (ct, line, iobs, mobs) in total.hang_viol]
+    for (ct, line, iobs, mobs) in hangs[:3]:
+        payload = {"line": line, "impl": iobs, "model": mobs}
+        if ct is not None:
+            payload["case"] = ct
+        run.violation("the reader never returns on this line (alarm); C06_terminates says no text makes it hang", payload)
+    if docs:
+        for (reader, doc, iobs, mobs) in docs["hang"][:2]:
+            run.violation("the reader never returns on this document (alarm)", {"reader": reader, "document": doc,
+                                                                                "line": doc, "impl": iobs, "model": mobs})
     n_corr = len(total.corr_fail) + (len(docs["corr_fail"]) if docs else 0)
-    if not spec_fail and not (docs and docs["spec_fail"]):
+    if not spec_fail and not (docs and docs["spec_fail"]) and not hangs and not (docs and docs["hang"]):
         if n_corr:
             first = total.corr_fail[0] if total.corr_fail else docs["corr_fail"][0]
             run.violation("correspondence Model.NtReader vs shexer NtTriplesYielder no longer checks",
@@ -728,7 +845,14 @@ def run(tier, seed, replay=None):
                           failing_input=False)
 
     run.coverage.update({
-        "evaluations": total.n + (docs["docs"] if docs else 0) + len(corpus),
+        "evaluations": total.n + (docs["docs"] if docs else 0) + len(corpus) + (garbage["n"] if garbage else 0),
+        "arbitrary_lines": ({"lines": garbage["n"], "impl_status_distribution": dict(garbage["status"]),
+                             "model_predicted_hangs": garbage["predicted_hangs"],
+                             "predicted_hangs_not_run_against_the_real_reader": garbage["not_run"],
+                             "alphabet": GARBAGE_TOK,
+                             "rule": "random concatenations of 1..10 fragments; not N-Triples in general: model vs "
+                                     "implementation only (status, error count, triples), and no hang at all once "
+                                     "nt_uri_unclosed_to_eol holds"} if garbage else {}),
         "regression_corpus": {"cases": len(corpus), "failing": [c["file"] for c in corpus_fail]},
         "repairs_present": repaired or "none",
         "distinct_nontrivial": total.nontrivial + len(total.hashes),
@@ -749,6 +873,8 @@ def run(tier, seed, replay=None):
         "outside_dom_but_right": total.out_dom_right,
         "impl_status_distribution": dict(total.status),
         "lines_on_which_the_real_reader_ran_into_the_alarm": total.hang_lines[:20],
+        "real_calls_that_ran_into_the_alarm": total.n_hang,
+        "flags": dict(FLAGS),
         "root_cause_flagged": dict(total.rc_hits),
         "known_finding_hits": dict(total.rc_fail),
         "known_finding_examples": {k: v for k, v in total.rc_example.items()},
